@@ -25,7 +25,7 @@ def c06(tier):
 def c16(tier):
     n = 3 if tier == "quick" else 5
     jobs = [Job("h_c16::diff_roundtrip", p, {"hash_order": "fixed"}, budget_s=1500, validate=(30 if tier == "quick" else 50)) for p in pairs(n)]
-    chains = [(7, 3, 0), (7, 3, 1), (3, 4, 0)] if tier == "quick" else [(7, 3, 0), (7, 3, 1), (3, 4, 0), (3, 4, 1), (12, 3, 0), (5, 4, 1)]
+    chains = [(7, 3, 0), (7, 3, 1), (3, 4, 0), (3, 3, 2)] if tier == "quick" else [(7, 3, 0), (7, 3, 1), (3, 4, 0), (3, 3, 2), (3, 4, 1), (12, 3, 0), (5, 4, 1), (7, 4, 2)]
     for c in chains:
         jobs.append(Job("h_c04::array_chain", c, dict(S2), budget_s=3000, validate=30))
     return dict(
@@ -108,6 +108,8 @@ def c03(tier):
     s2 = [(4, 1, 0), (4, 2, 0), (4, 2, 1)] if tier == "quick" else [(4, 1, 0), (4, 2, 0), (4, 2, 1), (6, 3, 0), (8, 2, 1), (12, 1, 1)]
     for c in s2:
         jobs.append(Job("h_c03::commit_reopen", c, dict(S2), budget_s=3000, validate=30))
+    # commit while array conflicts are pending (automatic resolution), then reopen: scenario shared with C12
+    jobs.append(Job("h_c12::maintenance", (10, 0), dict(S2), budget_s=3000, validate=20))
     return dict(jobs=jobs,
                 bounds={"objects per pack": "0..%d" % max(c[0] for c in combos), "symbolic string length": "0..%d" % max(c[1] for c in combos),
                         "string alphabet": "{ } [ ] , : \" \\ a (each byte symbolic); skeletons: flat object, symbolic key, nested object, array descriptor with non-ASCII literal, patch descriptor",
@@ -128,6 +130,7 @@ def c04(tier):
     if tier != "quick":
         combos += [(0, 7, 1, 1), (0, 4, 2, 0), (1, 0, 2, 0), (1, 0, 1, 0), (0, 12, 1, 0)]
     jobs = [Job("h_c04::update_read", c, dict(S2), budget_s=3000, validate=30) for c in combos]
+    jobs.append(Job("h_c12::update_in_conflict", (6 if tier == "quick" else 10,), dict(S2), budget_s=3000, validate=30))
     return dict(jobs=jobs,
                 bounds={"combos [variant, element orders, prior documents, commit after each prior document]": [list(c) for c in combos],
                         "variant 0": "element order of items♭ x membership of a second flattened array (objects move between arrays)",
@@ -250,6 +253,7 @@ def c14(tier):
 
 def c07(tier):
     jobs = [Job("h_c07::resolve_object", (0,), dict(S2), budget_s=3000, validate=30),
+            Job("h_c07::resolve_object", (2,), dict(S2), budget_s=3000, validate=30),
             Job("h_c07::resolve_both", (), dict(S2), budget_s=3000, validate=30),
             Job("h_c07::resolve_three", (), dict(S2), budget_s=3000, validate=30)]
     return dict(jobs=jobs, bounds={"scenario": "base [a,b]; each replica concurrently updates a to a symbolic value or deletes it; exchange; every live leaf chosen; commit; propagate / independent resolutions on both replicas"},
@@ -269,7 +273,8 @@ def c08(tier):
 def c10(tier):
     jobs = [Job("h_c10::junk_item", (11,), dict(S2), budget_s=3000, validate=40),
             Job("h_c10::damaged_item", (), dict(S2), budget_s=3000, validate=40),
-            Job("h_c10::damaged_merge", (), dict(S2), budget_s=3000, validate=16)]
+            Job("h_c10::damaged_merge", (), dict(S2), budget_s=3000, validate=16),
+            Job("h_c10::live_damage", (), dict(S2), budget_s=3000, validate=3)]
     return dict(jobs=jobs, bounds={"history": "one replica, two commits (2 blocks + 2 packs)",
                                    "junk": "names <digits{1..11}>-<word{1,2}>.delta, <word{1..3}>.delta/.pack, revision-like names; content <= 2 symbolic bytes",
                                    "damage": "any one of the 4 items removed, emptied, truncated by one byte or to half, or one byte (first/middle/last) replaced by any different byte"},
